@@ -240,6 +240,8 @@ pub struct Explorer<'a> {
     pub budget: &'a Budget,
     /// close every new state in all K rotation orders (C03)
     pub close_rotations: bool,
+    /// VERIF_SEED: only rotates the order in which work is handed out
+    pub seed: u64,
 }
 
 impl<'a> Explorer<'a> {
@@ -429,6 +431,10 @@ impl<'a> Explorer<'a> {
             let mut nx = next.into_inner().unwrap();
             // deterministic order of the next frontier regardless of thread timing
             nx.sort();
+            if self.seed != 0 && !nx.is_empty() {
+                let k = (self.seed as usize) % nx.len();
+                nx.rotate_left(k);
+            }
             if !last {
                 res.stored.push(nx.clone());
             }
